@@ -862,8 +862,8 @@ def select__schema_element_kind_test(self: XPathFunction, context: ta.ContextTyp
             if isinstance(item, ElementNode) and item.name == qname:
                 matched = True
                 yield item  # every match; the iteration restores the context when it ends
-        if matched:
-            return
+        if matched or context.axis != 'self':
+            return  # no match on an axis step is an empty result, not an error
 
     if not isinstance(context, XPathSchemaContext):
         raise self.error('XPST0008', 'schema element %r not found' % element_name)
